@@ -120,7 +120,10 @@ def route_grammars(R):
                 R.Rule('Parens', R.Right(R.Str('('), R.Ref('p')), params=['p']),
                 R.Rule('Plain', R.Call(R.Ref('Parens'), [R.Left(R.Ref('Item'), R.Str(';'))])),
                 R.Rule('Tagged', R.Call(R.Ref('Parens'), [R.Left(R.Ref('Item'), R.Str(';'))]), params=['Item']),
-                R.Rule('Tagged2', R.Call(R.Ref('Parens'), [R.Left(R.Ref('Item'), R.Str(';'))]), params=['Item'])]
+                R.Rule('Tagged2', R.Call(R.Ref('Parens'), [R.Left(R.Ref('Item'), R.Str(';'))]), params=['Item']),
+                # a `let` inside the body of a `let` of the same name: after the inner one ends, the name
+                # denotes the outer value again
+                R.Rule('L3', R.Let('x', R.Str('1'), R.Seq(R.Let('x', R.Str('2'), R.Py('x')), R.Py('x'))))]
     G.append(('shadow', shadow, {}))
 
     def deep():
@@ -741,6 +744,31 @@ def local_shadowing(mod, bad, stats):
                     if s2 and s2[0].startswith('_try_') and s2[0][5:] in bound:
                         bad('LOCAL-shadow', f'{mod.label}: in {fname} the locally bound name {s2[0][5:]} is passed '
                                             f'on as the grammar rule {ast.unparse(a)}')
+
+
+def let_scope(mod, bad, stats):
+    """`let x = a in [(let x = b in `x`), `x`]`: the last read of x belongs to the outer binding.  In the
+    emitted rule function both bindings are plain stores into one Python local; the read is reached
+    by whichever store ran last."""
+    if getattr(mod, 'route', '') != 'shadow':
+        return
+    fn = functions_top(mod.tree).get(impl('L3'))
+    if fn is None:
+        raise AnalysisError(f'{mod.label}: route rule L3 missing')
+    occ = sorted(((n.lineno, n.col_offset, isinstance(n.ctx, ast.Store)) for n in ast.walk(fn)
+                  if isinstance(n, ast.Name) and n.id == 'x'))
+    stores = [o for o in occ if o[2]]
+    loads = [o for o in occ if not o[2]]
+    stats['let_scope'] = stats.get('let_scope', 0) + 1
+    if len(stores) < 2 or len(loads) < 2:
+        raise AnalysisError(f'{mod.label}: {fn.name}: expected two bindings and two reads of x, found '
+                            f'{len(stores)}/{len(loads)}')
+    last_read = loads[-1]
+    before = [s for s in stores if s[:2] < last_read[:2]]
+    if before and before[-1] != stores[0]:
+        bad('LOCAL-let-scope@L3', f'{mod.label}: in {fn.name} the read of `x` after the inner `let x` has ended is '
+                                  f'reached by the inner binding (both are stores into the same Python local, '
+                                  f'line {before[-1][0]} overwrites line {stores[0][0]}): the outer value is lost')
 
 
 # --------------------------------------------------------------------------- wiring / free names
@@ -1457,6 +1485,7 @@ def run(rep, pid, rules, label_filter=None, always=()):
         nmods += 1
         conformance(m, bad, stats)
         local_shadowing(m, bad, stats)
+        let_scope(m, bad, stats)
         context_wiring(m, bad, stats)
         free_names(m, bad, stats)
         temp_allocation_unique(m, bad, stats)
